@@ -19,7 +19,7 @@ MODULE = 'SshAudit.Props.C10'
 NAMESPACE = 'SshAudit.C10'
 THEOREMS = ['byte_rt', 'byte_overflow', 'bool_rt', 'u32_rt', 'u32_overflow', 'string_rt', 'namelist_rt', 'namelist_empty',
             'createMpint_signed', 'mpint2_rt', 'createMpintU_eq', 'mpint1_rt', 'writeMpint1Z_nat', 'mpint1_negative_not_rt',
-            'kexinit_rt', 'padLen_bounds', 'frame_eq', 'frame_wf', 'frame_read_back', 'frame_rfc', 'crc_fold', 'crc_table_eq_spec', 'crcCalc_lt', 'frame1_read_back', 'frames_read_back']
+            'kexinit_rt', 'pkm_rt', 'padLen_bounds', 'frame_eq', 'frame_wf', 'frame_read_back', 'frame_rfc', 'crc_fold', 'crc_table_eq_spec', 'crcCalc_lt', 'frame1_read_back', 'frames_read_back']
 # functions of the code whose Lean definitions are regenerated from the source on every run (harness/translate_logic.py); `GenLogic.<name>_eq_model`
 # (lean/SshAudit/Props/GenLogic*.lean) ties each to the hand-written model function the theorems above are about
 GEN_LOGIC = ['ssh1_crc32_table', 'ssh1_crc32_calc', 'mpint_length', 'send_packet_framing', 'read_packet1_lengths', 'read_packet2_lengths', 'parse_mpint', 'mpint2_pad_fmt', 'create_mpint', 'mpint1_nbytes', 'kex_write', 'kex_parse', 'pkm_write', 'pkm_parse']
@@ -33,7 +33,7 @@ LEVEL_NOTE = ('Trusted: Lean kernel, the correspondence harness and its generato
               '(fix: commit in /repo); framing is proved against the repaired read_packet (D16). SSH-1 mpints of negative sign do not round-trip (format is unsigned): '
               'known finding D02, proved as a negation. Regenerated from the source and proved equal to the model (lost ties are printed): _create_mpint, _parse_mpint, read_mpint2 pad choice, '
               'read_mpint1 byte count, SSH2_Kex.write/parse, SSH1_PublicKeyMessage.write/parse, CRC table and fold, send/read_packet arithmetic; _bitlength = int.bit_length is tied by correspondence only. '
-              'kexinit_reencode / pkm round trip are covered by correspondence (re-encode ops), not yet by theorems.')
+              'The pkm round trip is a theorem since round 17 (pkm_rt); kexinit_reencode / pkm re-encode are covered by correspondence (re-encode ops), not yet by theorems.')
 
 
 class FakeSock:
